@@ -130,10 +130,10 @@ var c19JunkPool = []string{"10", "+5", "007", "-0", "1e3", " 5", "92233720368547
 
 func genConfig(r *Rng, fields []driver.VerifField) driver.VerifConfig {
 	var pairs [][2]string
-	mode := r.Intn(4) // 0: mostly default, 1: mixed, 2: everything random, 3: mostly default
+	mode := r.Intn(6) // 1: mixed, 2: everything random, others: mostly default
 	for _, f := range fields {
 		v := f.Default
-		if (mode == 2) || (mode == 1 && r.Bool()) || ((mode == 0 || mode == 3) && r.P(1, 6)) {
+		if (mode == 2) || (mode == 1 && r.Bool()) || (mode != 1 && mode != 2 && r.P(1, 6)) {
 			switch f.Kind {
 			case "string":
 				if len(f.Choices) > 0 && !r.P(1, 8) {
@@ -247,7 +247,7 @@ func runC19(c *Ctx) {
 		c.Case(gen, in, obs, changed, "op:url")
 	}
 	urlCase("url-default", driver.VerifDefaultConfig(), url.Values{})
-	for k := 0; k < c.Budget(500, 20000); k++ {
+	for k := 0; k < c.Budget(300, 20000); k++ {
 		cfg := genConfig(c.R, fields)
 		q0 := url.Values{}
 		if c.R.P(1, 2) {
@@ -270,7 +270,7 @@ func runC19(c *Ctx) {
 		}
 	}
 	// --- applyURL on an arbitrary base config and an arbitrary query (error paths, order)
-	for k := 0; k < c.Budget(500, 20000); k++ {
+	for k := 0; k < c.Budget(300, 20000); k++ {
 		cfg := genConfig(c.R, fields)
 		q := genQuery(c.R, fields, 1+c.R.Intn(9))
 		strs := map[string]bool{}
